@@ -104,11 +104,11 @@ func indexCatalogues(rng *rand.Rand) []indexCatalogue {
 	{
 		// the default rule's pipeline: every step refers to its own mechanism
 		c := indexCatalogue{name: "default_rule.execute (mappings referring to mechanisms)", n: 11 + rng.IntN(2), elemOf: elemAt("default_rule.execute")}
-		c.leaves = cat(base, kv("mechanisms.contextualizers.0", "id", "c0", "type", "generic", "config.endpoint.url", "http://foo.bar/x"),
-			kv("mechanisms.contextualizers.1", "id", "c1", "type", "generic", "config.endpoint.url", "http://foo.bar/y"),
-			kv("default_rule.execute.0", "authenticator", "a0"))
+		c.leaves = cat(base, kv("default_rule.execute.0", "authenticator", "a0"), kv("mechanisms.contextualizers.0", "id", "cx", "type", "generic", "config.endpoint.url", "http://foo.bar/x"))
 		for i := 1; i < c.n; i++ {
-			c.leaves = append(c.leaves, withAlt(kv("default_rule.execute."+strconv.Itoa(i), "contextualizer", "c0"), "c1")...)
+			id := fmt.Sprintf("c%d", i)
+			c.leaves = append(c.leaves, kv("mechanisms.contextualizers."+strconv.Itoa(i), "id", id, "type", "generic", "config.endpoint.url", "http://foo.bar/"+id)...)
+			c.leaves = append(c.leaves, withAlt(kv("default_rule.execute."+strconv.Itoa(i), "contextualizer", id), "cx")...)
 		}
 		out = append(out, c)
 	}
